@@ -314,7 +314,6 @@ pub fn datum_property<T: Serialize + DeserializeOwned + PartialEq + std::fmt::De
 	let v = json_syntax::to_value(x).map_err(|e| format!("to_value failed: {e}"))?;
 	let sj = serde_json::to_value(x).map_err(|e| format!("harness: serde_json::to_value failed: {e}"))?;
 	same_shape(&v, &sj, "$")?;
-	crate::objquery::self_consistent(&v).map_err(|m| format!("to_value(x) is not queryable by key: {m}"))?;
 	if has_non_finite {
 		return Ok(());
 	}
